@@ -146,6 +146,9 @@ PROBES = [
     ("1.0d-10*n(idx_H2)", "multi_letter_idx", {}),
     ("2.0d-10*n(idx_CO)/n(idx_H)", "multi_letter_idx", {}),
     ("3.0d-10*n(idx_H2p)", "multi_letter_idx", {}),
+    ("1.0d-10*2.0d0**int(log10(Tgas)-3.5d0)", "int_intrinsic", {}),
+    ("1.0d-12*int(-2.7d0*T32)", "int_intrinsic", {}),
+    ("3.0d-11*int(lnTe*1.5d0)*invT", "int_intrinsic", {}),
     ("x1d2*2.0", "dexp_in_identifier", {}),
     ("1.0d-9*k2d3", "dexp_in_identifier", {}),
 ]
